@@ -802,3 +802,115 @@ func (c *c11BgFlush) Nontrivial() bool {
 	return c.Outcome == "stopped" || c.Outcome == "closed-with-error"
 }
 func (c *c11BgFlush) Kind() string { return "flush/background/" + c.File }
+
+// ---- C11, database level: a compaction cycle over an input whose data file went bad on disk AFTER the database had
+// loaded it (one altered payload byte; the table still decompresses): the cycle re-reads its inputs, so it has to
+// report the damage - it must never merge the altered value into a table with a fresh, matching checksum
+
+type c11Damaged struct {
+	NTables int  `json:"ntables"`
+	Victim  int  `json:"victim"`
+	Comp    bool `json:"comp,omitempty"`
+	// instead of one altered value: a hole of zero bytes (longer than a disk block, beginning at a record boundary) in
+	// the index file of the victim, which holds hundreds of records
+	IdxHole bool `json:"idx_hole,omitempty"`
+	// observations
+	CycleErr string `json:"cycle_err,omitempty"`
+	Wrong    string `json:"wrong,omitempty"` // after a cycle that reported success: a key that reads differently than it was written
+	Fatal    string `json:"fatal,omitempty"`
+}
+
+func (c *c11Damaged) Exec() {
+	defer func() {
+		if r := recover(); r != nil {
+			c.Fatal = fmt.Sprint("panic: ", r)
+		}
+	}()
+	c.Fatal, c.CycleErr, c.Wrong = "", "", ""
+	dir := tmpDir("c11d-")
+	defer os.RemoveAll(dir)
+	r := &dbRunner{dir: dir}
+	must(r.open(dbOpts{MemstoreBytes: 1 << 30, Threshold: 1, MaxSize: 5 << 30, RatioPct: 100, WBuf: 4096, RBuf: 4096}))
+	defer func() {
+		if r.db != nil {
+			r.db.Close()
+		}
+	}()
+	ref := map[string]string{}
+	nrec := 3
+	if c.IdxHole {
+		nrec = 700
+	}
+	for t := 0; t < c.NTables; t++ {
+		for k := 0; k < nrec; k++ {
+			key, val := fmt.Sprintf("key-%d-%04d", t, k), fmt.Sprintf("balance=%d", 1000+17*t+k)
+			must(r.db.Put(key, val))
+			ref[key] = val
+		}
+		st := dbStep{Op: "rotate"}
+		r.step(&st)
+	}
+	tabs := r.db.VerifTables()
+	if len(tabs) != c.NTables {
+		c.Fatal = "setup: unexpected number of tables"
+		return
+	}
+	p := filepath.Join(tabs[c.Victim%len(tabs)].Path, sstables.DataFileName)
+	if c.IdxHole {
+		p = filepath.Join(tabs[c.Victim%len(tabs)].Path, sstables.IndexFileName)
+	}
+	data, err := os.ReadFile(p)
+	must(err)
+	if c.IdxHole {
+		// from the first record boundary behind a third of the file, 5000 bytes (or to the end)
+		at := -1
+		for i := len(data) / 3; i+2 < len(data); i++ {
+			if data[i] == 0x91 && data[i+1] == 0x8d && data[i+2] == 0x4c {
+				at = i
+				break
+			}
+		}
+		if at < 0 || len(data) < 12000 {
+			c.Fatal = "setup: index file too small for a hole"
+			return
+		}
+		for i := at; i < at+5000 && i < len(data); i++ {
+			data[i] = 0
+		}
+	} else {
+		// the table files are snappy compressed: the last byte of the file is a literal byte of the last value
+		data[len(data)-1] ^= 0x08
+	}
+	must(os.WriteFile(p, data, 0644))
+	st := dbStep{Op: "compact"}
+	r.step(&st)
+	c.CycleErr = st.Err
+	if st.Err != "" {
+		return
+	}
+	for k, want := range ref {
+		v, err := r.db.Get(k)
+		if err != nil || v != want {
+			c.Wrong = fmt.Sprintf("%s reads %q (err %v), written as %q", k, v, err, want)
+			return
+		}
+	}
+}
+
+func (c *c11Damaged) Oracle() (bool, string) {
+	if c.Fatal != "" {
+		return false, c.Fatal
+	}
+	if c.CycleErr == "" && c.Wrong != "" {
+		return false, "a compaction cycle over a damaged input table (altered value / zeroed stretch of its index) reported success and installed its output: " + c.Wrong
+	}
+	return true, ""
+}
+func (c *c11Damaged) Sx() string       { return "" }
+func (c *c11Damaged) Nontrivial() bool { return c.CycleErr != "" }
+func (c *c11Damaged) Kind() string {
+	if c.IdxHole {
+		return "compaction/index-hole"
+	}
+	return "compaction/damaged-input"
+}
